@@ -234,7 +234,10 @@ def _special_op(draw, form, frac, limit):
     if form == "hflex1":
         return "hflex1", nums(9)
     if form == "flex1":
-        a = nums(11)
+        # flex1 decides between a horizontal and a vertical last delta by comparing |dx| with |dy|: its operands are kept
+        # exact multiples of 1/65536 (no near-integer floats), so that the 16.16 quantisation of compile() cannot flip it
+        a = [(round(v * 65536) / 65536.0 if isinstance(v, float) else v) for v in nums(11)]
+        a = [int(v) if isinstance(v, float) and v == int(v) else v for v in a]
         if draw(_int(0, 2)) == 0:
             # the tie |dx| == |dy| (the note: d6 is horizontal only when |dx| > |dy|)
             dx = a[0] + a[2] + a[4] + a[6] + a[8]
